@@ -347,6 +347,7 @@ func (w *World) Do(op Op) Res {
 		res Res
 		ev  map[string]interface{}
 	}
+	op = w.AvoidRebind(op)
 	ch := make(chan out, 1)
 	go func() {
 		res, ev := w.Exec(op, true)
